@@ -17,7 +17,7 @@ use std::time::{Duration, Instant};
 pub fn def() -> PropDef {
     PropDef {
         id: "C16",
-        rule: "generated thread programs, each executed in a FRESH child process (so that every program races the lazy initialisation of the global tables): 2..12 threads released by a common barrier with generated start skews; per thread a list of actions: construct an engine (Naive / NoSimd / Ssse3 / Avx2 / Default - each first-touches a different subset of the exp-log, skew, Mul16, Mul128 and LogWalsh tables) or run an encode or decode round (1..12 repetitions) on own objects, drawn from a per-program palette of 1..3 kinds of work so that threads do the same and different work side by side, optionally handing the object over a channel to another thread after j of its adds. oracle: every round's output digest equals the digest of the same round executed sequentially in the parent; the child must exit 0 (a panic anywhere, including lazy-initialisation poisoning, fails it). A child exceeding the watchdog is reported as inconclusive (exit 2), never as a violation. non-trivial: >=2 threads whose first actions touch different tables, or a hand-over in the middle of a round; distinct by full program",
+        rule: "generated thread programs, each executed in a FRESH child process (so that every program races the lazy initialisation of the global tables): 2..12 threads released by a common barrier with generated start skews; per thread a list of actions: construct an engine (Naive / NoSimd / Ssse3 / Avx2 / Default - each first-touches a different subset of the exp-log, skew, Mul16, Mul128 and LogWalsh tables) or run an encode or decode round (1..12 repetitions) on own objects, drawn from a per-program palette of 1..3 kinds of work so that threads do the same and different work side by side, optionally handing the object over a channel to another thread after j of its adds. oracle: every round's output digest equals the digest of the same round executed sequentially in the parent; the child must exit 0 (a panic anywhere, including lazy-initialisation poisoning, fails it). Two programs per run make 4 threads call one-shot encode / decode with shard iterators that wait for each other inside the call. A child exceeding the watchdog (suspected deadlock) is reported as inconclusive (exit 2), never as a violation. non-trivial: >=2 threads whose first actions touch different tables, or a hand-over in the middle of a round; distinct by full program",
         assumptions: &[
             "stress exploration: the OS scheduler picks the interleavings, the harness only provokes collisions (barrier, skews, fresh process per program); this cannot enumerate schedules",
         ],
@@ -30,6 +30,9 @@ pub enum Action {
     Construct(Eng),
     /// the same round `repeat` times on the same object; every repetition must give the same result
     Round { id: u32, dec: bool, kind: Kind, eng: Eng, cfg: Cfg, seed: u64, repeat: u8, handover: Option<(u8, u16)> },
+    /// one-shot encode()/decode() whose shard iterator waits, at its first item, until every other thread of
+    /// the program is inside its own one-shot call too (calls that can only make progress side by side)
+    OneShotRendezvous { id: u32, dec: bool, cfg: Cfg, seed: u64, wait_at: u8 },
 }
 
 #[derive(Clone, Debug, PartialEq, Eq, Hash, Serialize, Deserialize)]
@@ -307,6 +310,19 @@ impl PartDyn for Hammer {
             for (kind, dec) in [(Kind::Rs, true), (Kind::High, true), (Kind::Low, true), (Kind::Rs, false)] {
                 jobs.push(hammer_program_large(kind, Eng::Default, dec, run.seed ^ v, run.tier.pick(160, 250)));
             }
+            // one-shot calls that can only finish side by side (a process-wide lock held while the
+            // caller's iterator runs would deadlock them: reported by the watchdog as inconclusive)
+            for (dec, mode) in [(false, 0u8), (false, 1), (true, 0), (true, 1)] {
+                let mut rng = gen::Xs::new(run.seed ^ v ^ (dec as u64) << 8 ^ mode as u64);
+                let threads = (0..4u32)
+                    .map(|t| ThreadProg {
+                        spin: 0,
+                        // mode 0: everybody waits at a later item; mode 1: mixed first / second / last item
+                        actions: vec![Action::OneShotRendezvous { id: t, dec, cfg: Cfg { k: 3 + rng.below(6), r: 3 + rng.below(6), b: 64 }, seed: rng.next(), wait_at: if mode == 0 { 1 + (t % 2) as u8 } else { [0u8, 1, 200, 2][t as usize] } }],
+                    })
+                    .collect();
+                jobs.push(Program { threads });
+            }
         }
         let next = std::sync::atomic::AtomicUsize::new(0);
         let results = std::sync::Mutex::new(Vec::new());
@@ -443,8 +459,40 @@ fn finish(mut p: Pending) -> Result<(u32, u64), String> {
     Ok((p.id, crate::runner::hash_of(&last)))
 }
 
+fn oneshot(dec: bool, cfg: Cfg, seed: u64, wait_at: u8, barrier: Option<&std::sync::Barrier>) -> Result<u64, String> {
+    let data: Vec<Vec<u8>> = (0..cfg.k).map(|i| shard_bytes(seed, false, i, cfg.b)).collect();
+    // waits when the iterator hands out item number `wait_at` (clamped to the last item)
+    let wait = |seen: &mut usize, total: usize| {
+        if *seen == (wait_at as usize).min(total.saturating_sub(1)) {
+            if let Some(b) = barrier {
+                b.wait();
+            }
+        }
+        *seen += 1;
+    };
+    if !dec {
+        let mut seen = 0usize;
+        let rec = reed_solomon_simd::encode(cfg.k, cfg.r, data.iter().inspect(|_| wait(&mut seen, cfg.k))).map_err(|e| format!("one-shot encode failed: {e:?}"))?;
+        Ok(crate::runner::hash_of(&rec))
+    } else {
+        let rec = encode_all(Kind::Rs, Eng::Default, cfg.k, cfg.r, cfg.b, &data).map_err(|e| format!("encode failed: {e:?}"))?;
+        let n = cfg.k.min(cfg.r);
+        let mut seen = 0usize;
+        let restored = reed_solomon_simd::decode(
+            cfg.k,
+            cfg.r,
+            (n..cfg.k).map(|i| (i, &data[i])),
+            (0..n).map(|i| (i, &rec[i])).inspect(|_| wait(&mut seen, n)),
+        )
+        .map_err(|e| format!("one-shot decode failed: {e:?}"))?;
+        let m: BTreeMap<usize, Vec<u8>> = restored.into_iter().collect();
+        Ok(crate::runner::hash_of(&m))
+    }
+}
+
 fn start(action: &Action) -> Result<Option<(Pending, Option<(u8, u16)>)>, String> {
     match action {
+        Action::OneShotRendezvous { .. } => Ok(None),
         Action::Construct(e) => {
             crate::with_engine!(*e, E, {
                 let _ = <E as Mk>::mk();
@@ -466,6 +514,10 @@ pub fn run_sequential(p: &Program) -> Result<BTreeMap<u32, u64>, String> {
     let mut out = BTreeMap::new();
     for t in &p.threads {
         for a in &t.actions {
+            if let Action::OneShotRendezvous { id, dec, cfg, seed, wait_at } = a {
+                out.insert(*id, oneshot(*dec, *cfg, *seed, *wait_at, None)?);
+                continue;
+            }
             if let Some((pending, _)) = start(a)? {
                 let (id, d) = finish(pending)?;
                 out.insert(id, d);
@@ -479,6 +531,8 @@ pub fn run_sequential(p: &Program) -> Result<BTreeMap<u32, u64>, String> {
 pub fn run_concurrent(p: &Program) -> Result<BTreeMap<u32, u64>, String> {
     let n = p.threads.len();
     let barrier = std::sync::Barrier::new(n);
+    let rv_threads = p.threads.iter().filter(|t| t.actions.iter().any(|a| matches!(a, Action::OneShotRendezvous { .. }))).count();
+    let rv_barrier = std::sync::Barrier::new(rv_threads.max(1));
     let mut txs = Vec::new();
     let mut rxs = Vec::new();
     for _ in 0..n {
@@ -492,6 +546,7 @@ pub fn run_concurrent(p: &Program) -> Result<BTreeMap<u32, u64>, String> {
             let rx = rxs[ti].take().unwrap();
             let txs: Vec<mpsc::Sender<Pending>> = txs.clone();
             let barrier = &barrier;
+            let rv_barrier = &rv_barrier;
             hs.push(sc.spawn(move || -> Result<Vec<(u32, u64)>, String> {
                 let mut done = Vec::new();
                 barrier.wait();
@@ -501,7 +556,14 @@ pub fn run_concurrent(p: &Program) -> Result<BTreeMap<u32, u64>, String> {
                     std::hint::spin_loop();
                 }
                 std::hint::black_box(x);
+                let mut met = false;
                 for a in &t.actions {
+                    if let Action::OneShotRendezvous { id, dec, cfg, seed, wait_at } = a {
+                        // only the first such action of a thread takes part in the rendezvous
+                        done.push((*id, oneshot(*dec, *cfg, *seed, *wait_at, if met { None } else { Some(rv_barrier) })?));
+                        met = true;
+                        continue;
+                    }
                     if let Some((mut pending, handover)) = start(a)? {
                         match handover {
                             Some((to, after)) if n > 1 => {
@@ -563,6 +625,15 @@ pub fn child_main() -> i32 {
 
 pub const WATCHDOG: Duration = Duration::from_secs(60);
 
+fn watchdog_for(p: &Program) -> Duration {
+    // rendezvous programs do a few milliseconds of work
+    if p.threads.iter().flat_map(|t| &t.actions).all(|a| matches!(a, Action::OneShotRendezvous { .. })) {
+        Duration::from_secs(25)
+    } else {
+        WATCHDOG
+    }
+}
+
 pub enum ChildOutcome {
     Digests(BTreeMap<u32, u64>),
     Failed(String),
@@ -606,7 +677,7 @@ pub fn run_child(p: &Program, exe: &std::path::Path, extra_env: &[(&str, &str)])
                 return ChildOutcome::Failed(format!("child exit status {status}; stdout: {}; stderr tail: {tail}", out.trim()));
             }
             Ok(None) => {
-                if t0.elapsed() > WATCHDOG {
+                if t0.elapsed() > watchdog_for(p) {
                     let _ = child.kill();
                     let _ = child.wait();
                     return ChildOutcome::Timeout;
@@ -628,6 +699,7 @@ fn first_tables(a: &Action) -> u8 {
     match a {
         Action::Construct(e) => eng_bits(*e),
         Action::Round { dec, eng, .. } => eng_bits(*eng) | if *dec { 16 } else { 0 },
+        Action::OneShotRendezvous { dec, .. } => eng_bits(Eng::Default) | if *dec { 16 } else { 0 },
     }
 }
 
